@@ -61,7 +61,15 @@ def main():
         if not os.path.exists(os.path.join(d, "patch.diff")):
             print(item, "missing"); continue
         dest = "/verif/seeded/%s-%s%s" % (ID, SUFFIX, v)
-        ok, why = confirm(ID, v, d)
+        cj = os.path.join(d, "confirm.json")
+        if os.environ.get("MUT_CONFIRM_ONLY"):
+            ok, why = confirm(ID, v, d)
+            json.dump({"ok": ok, "why": why}, open(cj, "w"))
+            print(item, "confirm", ok, why[:200]); continue
+        if os.path.exists(cj):
+            c = json.load(open(cj)); ok, why = c["ok"], c["why"]
+        else:
+            ok, why = confirm(ID, v, d)
         meta = {"property": ID, "variant": v, "confirmed": ok, "confirmation": why,
                 "notes": open(os.path.join(d, "notes.txt")).read() if os.path.exists(os.path.join(d, "notes.txt")) else ""}
         if not ok:
